@@ -108,6 +108,14 @@ type Interp struct {
 	phiDiff    map[*ssa.Phi]bool
 	phiStable  map[*ssa.Phi]bool
 	phiSeen    map[*ssa.Phi]bool
+	// InductionVars (opt-in, arbitrary-iteration mode): a loop-carried value that every
+	// back edge advances by the same constant is init + step*T, T = the number of
+	// completed iterations of its loop, instead of an unknown; counters of one loop then
+	// stay related to each other.
+	InductionVars bool
+	phiStep       map[*ssa.Phi]uint64
+	phiHdr        map[*ssa.Phi]Val
+	phiDelta      map[*ssa.Phi][]string // "c:<const>" per back edge, or "?"
 	loopChanged bool
 	curLoops    []*ssa.BasicBlock
 	headerObjs  map[*ssa.BasicBlock]int // number of objects existing when the loop was entered
@@ -435,6 +443,10 @@ func (ip *Interp) CallFix(fn *ssa.Function, mkArgs func() ([]Val, *State)) (Val,
 		ip.loopPre = map[*ssa.BasicBlock]map[string]string{}
 		ip.loopDiff = map[*ssa.BasicBlock]map[string]bool{}
 		ip.phiPre, ip.phiDiff, ip.phiSeen = map[*ssa.Phi]string{}, map[*ssa.Phi]bool{}, map[*ssa.Phi]bool{}
+		ip.phiHdr, ip.phiDelta = map[*ssa.Phi]Val{}, map[*ssa.Phi][]string{}
+		if ip.phiStep == nil || i == 0 {
+			ip.phiStep = map[*ssa.Phi]uint64{}
+		}
 		if ip.phiStable == nil || i == 0 {
 			ip.phiStable = map[*ssa.Phi]bool{}
 		}
@@ -483,12 +495,36 @@ func (ip *Interp) CallFix(fn *ssa.Function, mkArgs func() ([]Val, *State)) (Val,
 				}
 			}
 		}
+		if ip.InductionVars {
+			for phi, ds := range ip.phiDelta {
+				step, affine := uint64(0), len(ds) > 0
+				for i, d := range ds {
+					var c uint64
+					if _, err := fmt.Sscanf(d, "c:%d", &c); err != nil || (i > 0 && c != step) {
+						affine = false
+						break
+					}
+					step = c
+				}
+				old, had := ip.phiStep[phi]
+				switch {
+				case affine && step != 0 && (!had || old != step):
+					if !ip.loopChanged {
+						ip.phiStep[phi] = step
+						ip.loopChanged = true
+					}
+				case (!affine || step == 0) && had:
+					delete(ip.phiStep, phi)
+					ip.loopChanged = true
+				}
+			}
+		}
 		if !ip.loopChanged {
-			ip.loopPre, ip.phiPre = nil, nil
+			ip.loopPre, ip.phiPre, ip.phiHdr, ip.phiDelta = nil, nil, nil, nil
 			return res, out
 		}
 	}
-	ip.loopPre, ip.phiPre = nil, nil
+	ip.loopPre, ip.phiPre, ip.phiHdr, ip.phiDelta = nil, nil, nil, nil
 	ip.Imprecise("loop-written cells did not stabilise in " + fn.String())
 	return nil, nil
 }
@@ -508,8 +544,20 @@ func (ip *Interp) noteLatch(act *activation, header, from *ssa.BasicBlock, s *St
 				break
 			}
 			pk, had := ip.phiPre[phi]
-			if !had || ValKey(ip.get(act, s, phi.Edges[idx])) != pk {
+			lv := ip.get(act, s, phi.Edges[idx])
+			if !had || ValKey(lv) != pk {
 				ip.phiDiff[phi] = true
+			}
+			if ip.phiDelta != nil {
+				d := "?"
+				if hv, ok := ip.phiHdr[phi].(*Int); ok {
+					if li, ok := lv.(*Int); ok && li.W == hv.W {
+						if c, isC := ip.Ops.Sub(li, hv).IsConst(); isC {
+							d = fmt.Sprintf("c:%d", c)
+						}
+					}
+				}
+				ip.phiDelta[phi] = append(ip.phiDelta[phi], d)
 			}
 		}
 	}
@@ -678,7 +726,19 @@ func (ip *Interp) Call(fn *ssa.Function, args []Val, bind []Val, st *State) (res
 						}
 					}
 				}
-				act.env[phi] = ip.havocVal(fmt.Sprintf("loopvar:%s.%s.%s", fn.Name(), phi.Name(), phi.Comment), phi.Type())
+				init, _ := act.env[phi].(*Int)
+				if step, ok := ip.phiStep[phi]; ok && ip.InductionVars && init != nil {
+					t := NewSym(64, ip.In.Atom(fmt.Sprintf("iter:%s.%d", fn.Name(), b.Index), 64, 1<<40), false)
+					tw := ip.Ops.Convert(t, init.W, false, init.Signed)
+					v := ip.Ops.Add(init, ip.Ops.Mul(tw, NewConst(init.W, step, init.Signed)))
+					v.Signed = init.Signed
+					act.env[phi] = v
+				} else {
+					act.env[phi] = ip.havocVal(fmt.Sprintf("loopvar:%s.%s.%s", fn.Name(), phi.Name(), phi.Comment), phi.Type())
+				}
+				if ip.phiHdr != nil {
+					ip.phiHdr[phi] = act.env[phi]
+				}
 			}
 			if ip.loopPre != nil {
 				pre := map[string]string{}
